@@ -165,6 +165,34 @@ def _iso_child(i):
     from . import solve
     task = _ISO["tasks"][i]
     label = getattr(task, "label", getattr(task, "name", "?"))
+    # wall-clock guard of the whole task (VC generation, instantiation, the solver ladder): a task that exceeds it is undecided, never a hang of the check
+    import signal
+
+    class _Budget(Exception):
+        pass
+
+    def _alarm(signum, frame):
+        raise _Budget()
+    budget = int(max(240, 15 * _ISO["timeout"]))
+    try:
+        signal.signal(signal.SIGALRM, _alarm)
+        signal.alarm(budget)
+    except (ValueError, OSError):
+        pass
+    try:
+        return _iso_child_body(task, label)
+    except _Budget:
+        return dict(label=label, undecided=f"the prover's time budget for one task ({budget} s) was exceeded", info=None, obls=[], verdicts=[], covers=[])
+    finally:
+        try:
+            signal.alarm(0)
+        except (ValueError, OSError):
+            pass
+
+
+def _iso_child_body(task, label):
+    import traceback as tb
+    from . import solve
     try:
         r = run_task(task)
     except Exception:
